@@ -1,3 +1,4 @@
+import TinysetModel.Proofs.ContainsSrc
 import TinysetModel.Proofs.Loops
 import TinysetModel.Proofs.ProgramTotal
 import TinysetModel.Proofs.ProgramRefine
@@ -268,6 +269,18 @@ theorem primitives_are_the_source_u64 (k : Nat) (a : Tbl) (off : Nat) :
     Gen.p_insert_64 k a off = convErr (pinsert k a off) ∧
     Gen.p_remove_64 k a off = .ok (premove k a off) :=
   ⟨p_lookfor_64_eq k a off, p_insert_64_eq k a off, p_remove_64_eq k a off⟩
+
+/-! ### `contains` of the model is `contains` of the current source, arm by arm -/
+
+/-- the `Dense`, `Heap` and `Big` arms of `SetU64::contains`, translated from the source on every run, compute
+`contains` of the model on the corresponding representation — every `u64` element, every table (the `Empty` and
+`Stack` arms are `false` and `Tiny::contains`; the translator pins their shape) -/
+theorem contains_is_the_source_u64 (e sz cap : Nat) (a : Tbl) (he : e < 2 ^ 64) :
+    (cap = a.size → Gen.contains_dense_64 e a = contains cfg64 (.heap sz cap 64 a) e) ∧
+    (∀ bits, 0 < bits ∧ bits < 64 → Gen.contains_heap_64 e bits a = contains cfg64 (.heap sz cap bits a) e) ∧
+    (∀ bits, bits = 0 ∨ bits > 64 → Gen.contains_big_64 e bits a = contains cfg64 (.heap sz cap bits a) e) :=
+  ⟨contains_dense_64_eq e sz cap a, fun bits hb => contains_heap_64_eq e sz cap bits a he hb,
+   fun bits hb => contains_big_64_eq e sz cap bits a hb⟩
 
 end C01
 
